@@ -87,7 +87,31 @@ def _rewrite_use_trees(text):
     return "".join(out)
 
 
+def _drop_import_twins(text):
+    """The H3 hooks in /repo are twins of import statements:
+        #[cfg(not(kmertools_verif))] use std::{.., sync::{..}};
+        #[cfg(kmertools_verif)]      use std::{..};                 (the part that is not sync)
+        #[cfg(kmertools_verif)]      use verif_rt::sync::{..};
+    A changed tree that adds a name to the first and not to the third would not build with the
+    hook on.  In the rewritten copy the twins are not needed: `use` statements guarded by
+    cfg(kmertools_verif) are dropped, those guarded by cfg(not(kmertools_verif)) are un-guarded,
+    and the general rule redirects what they import from std::sync, whatever names they list.
+    Other guarded items (the stream seam, the mmap monitor, the setters) are not touched."""
+    on = re.compile(r"[ \t]*#\[cfg\(kmertools_verif\)\][ \t]*\n[ \t]*(?:pub[ \t]+)?use\b[^;]*;[ \t]*\n")
+    off = re.compile(r"[ \t]*#\[cfg\(not\(kmertools_verif\)\)\][ \t]*\n(?=[ \t]*(?:pub[ \t]+)?use\b)")
+    if not on.search(text) or not off.search(text):
+        return text
+    return off.sub("", on.sub("", text))
+
+
 def rewrite(text):
+    orig = text
+    text = _drop_import_twins(text)
+    new, ch = _rewrite(text)
+    return new, new != orig
+
+
+def _rewrite(text):
     if "std::sync" not in text and "std::thread" not in text and not re.search(r"use[ \t]+(::)?std::\{", text):
         return text, False
     if _static_with_sync(text) or "lazy_static!" in text and re.search(r"\b" + SYNC_NAMES + r"\b", text):
